@@ -2,7 +2,6 @@ package props
 
 import (
 	"fmt"
-	"os"
 	"runtime"
 	"sort"
 	"strings"
